@@ -197,6 +197,11 @@ def main(argv=None):
     rep = core.Report("C13", a.tier, a.seed)
     core.props_or_violation(rep)
     drv = core.Driver()
+    if a.replay:
+        import json as _json
+        family.replay_text_case(rep, drv, _json.load(open(a.replay)), check_model, False)
+        drv.close()
+        return rep.finish(level="proof", rule="replay of " + a.replay, trusted_base=["see the full check"])
     rng = random.Random(a.seed)
     gen = lang.Gen(rng, max_depth=2, p_cond=0.08, funcs=["exp", "cos", "sin", "atan", "log", "sqrt", "abs"], allow_mod=False)
     n = a.n or (24 if a.tier == "quick" else 500)
